@@ -1705,6 +1705,15 @@ XPathProcessorImpl::FunctionCall()
 
         consumeExpected(XalanUnicode::charColon);
 
+        // The name of a function is a QName ("q:*(x)" and "q:1(x)" are
+        // not function calls).
+        if (XalanQName::isValidNCName(m_token) == false)
+        {
+            error(
+                XalanMessages::IsNotValidQName_1Param,
+                m_token);
+        }
+
         theArgs[1] = m_expression->getTokenPosition() - 1;
 
         m_expression->setOpCodeArgs(XPathExpression::eOP_EXTFUNCTION,
